@@ -1252,6 +1252,9 @@ func (x *prioExec) callGraceful() {
 		return
 	}
 	x.gracefulOn = true
+	if x.mon != nil {
+		x.mon.gracefulRequested.Store(true)
+	}
 	x.logf("GracefulStop() called")
 	x.wg.Add(1)
 	go func() {
